@@ -204,3 +204,18 @@ func TestChannelFIFO(t *testing.T) {
 		t.Logf("cap %d: %d executions", capacity, st.Executions)
 	}
 }
+
+// An AfterFunc timer that is Reset after it fired runs its function again (as time.AfterFunc does).
+func TestAfterFuncResetAfterFire(t *testing.T) {
+	n := 0
+	r := vrt.Run(vrt.Options{MaxTime: 100}, nil, func() {
+		var tm *vrt.Timer
+		tm = vrt.AfterFunc(10, func() { n++ })
+		vrt.HSleep(15)
+		tm.Reset(10)
+		vrt.HSleep(20)
+	})
+	if r.Fatal != "" || n != 2 || len(r.Blocked) != 0 {
+		t.Fatalf("fatal=%q n=%d blocked=%v", r.Fatal, n, r.Blocked)
+	}
+}
